@@ -8,11 +8,15 @@ sys.path.insert(0, 'lib')
 import vf
 print('regen', vf.regen_all(print))
 vf.coq_makefile()
-ok, log = vf.coq_make([f + 'o' for f in vf.coq_files() if not f.startswith('extract/')], timeout=3000, keep_going=False)
+ok, log = vf.coq_make([f + 'o' for f in vf.coq_files() if not f.startswith('extract/')], timeout=3000, keep_going=True)
 print(log[-3000:])
 if not ok:
-    sys.exit('coq build failed')
+    # keep going: each check rebuilds what its own property needs and reports a proof break itself
+    print('WARNING: some Coq files did not build (see above)')
 for drv in sorted(glob.glob('oracle/drv_*.ml')):
     fam = os.path.basename(drv)[4:-3]
-    print('oracle', fam, vf.oracle_build(fam))
+    try:
+        print('oracle', fam, vf.oracle_build(fam))
+    except Exception as e:
+        print('WARNING: oracle', fam, 'not built:', str(e)[-500:])
 PY
